@@ -69,7 +69,11 @@ type Case struct {
 	Shape  string `json:"shape,omitempty"`
 	Hex    string `json:"hex"`            // value: the valid encoding B; bytes: the input X
 	Note   string `json:"note,omitempty"` // bytes: how X was derived
-	b      []byte
+	// value mode: a valid encoding (of the same Go type, under DonorPreset) that is decoded into the
+	// destination object BEFORE B is decoded into the same object ("recycled" destination)
+	Donor       string `json:"donor,omitempty"`
+	DonorPreset string `json:"donor_preset,omitempty"`
+	b           []byte
 }
 
 func (c *Case) bytes() []byte {
@@ -338,6 +342,7 @@ type runInfo struct {
 	yamlOK    bool
 	verdict   string
 	lenient   map[string]int
+	recycled  bool
 }
 
 func run(c *Case) (*report.Failure, *runInfo) {
@@ -450,6 +455,34 @@ func run(c *Case) (*report.Failure, *runInfo) {
 	}
 	info.yamlOK = true
 
+	// 5b. recycled destination: the library's decoders re-use the space of the destination object
+	// ("for recycling old state objects"); whatever the object held before — a longer list, a vector of
+	// another preset's length — decoding B into it must give exactly B's value
+	// Domain: fixed-size types only. List fields are decoded by appending to the destination (ztyp's
+	// idiom, used by every list in the library), so a destination with non-empty lists is outside what
+	// any caller may pass; vectors and fixed-size containers, on the other hand, are explicitly resized
+	// and overwritten in place ("re-use space if available").
+	if c.Donor != "" && t.IsFixed() {
+		if dp := reg.GetPreset(c.DonorPreset); dp != nil {
+			donor, _ := hex.DecodeString(c.Donor)
+			o4, _ := newObj(c, dp)
+			if derr, dpan := guard("Deserialize", func() error { return o4.Deserialize(donor) }); derr == nil && !dpan {
+				o4.Spec = p.Spec
+				if err, pan := guard("Deserialize", func() error { return o4.Deserialize(B) }); err != nil || pan {
+					return report.Failf(c.Type+"/Deserialize/recycled-destination-refuses-valid", "%s canonical encoding refused (%v, panic=%v) when the destination object held a %s value of %d bytes before; input %s", tag, err, pan, c.DonorPreset, len(donor), short(B)), info
+				}
+				out4, err, pan := encodeLib(o4)
+				if pan || err != nil || !bytes.Equal(out4, B) {
+					return report.Failf(c.Type+"/Deserialize/recycled-destination-keeps-old-content", "%s decoding B into an object that held a %s value (%d bytes) before leaves a value that encodes differently (%v): %s", tag, c.DonorPreset, len(donor), err, refssz.DiffBytes(t, B, out4)), info
+				}
+				if bl, ok := o4.ByteLength(); ok && bl != uint64(len(B)) {
+					return report.Failf(c.Type+"/ByteLength/wrong-after-recycling", "%s ByteLength() = %d after decoding %d bytes into a recycled object", tag, bl, len(B)), info
+				}
+				info.recycled = true
+			}
+		}
+	}
+
 	// 6. malformed inputs in the three classes, derived deterministically from (V, B)
 	if len(B) <= 1<<18 {
 		lay := refssz.Analyze(t, V)
@@ -500,7 +533,26 @@ func genValue(rt *rapid.T, typ string, p *reg.Preset, shape string) *Case {
 	}
 	v := refssz.Random(rt, t, o, "v")
 	b := refssz.Serialize(t, v)
-	return &Case{Type: typ, Preset: p.Name, Mode: "value", Shape: shape, Hex: hex.EncodeToString(b), b: b}
+	c := &Case{Type: typ, Preset: p.Name, Mode: "value", Shape: shape, Hex: hex.EncodeToString(b), b: b}
+	// donor for the recycled-destination step: same type, same or another preset, usually longer lists
+	if t.IsFixed() && rapid.IntRange(0, 2).Draw(rt, "with_donor") != 0 {
+		dp := p
+		if rapid.Bool().Draw(rt, "donor_other_preset") {
+			dp = reg.GetPreset(rapid.SampledFrom(reg.PresetNames).Draw(rt, "donor_preset"))
+		}
+		if dp.Family == "mainnet" && len(b) > 1<<14 {
+			dp = p // keep big mainnet values cheap
+		}
+		if dt, err := dp.Sch.Get(bd.Decl); err == nil {
+			do := refssz.GenOpts{AtLimit: rapid.Bool().Draw(rt, "donor_at_limit")}
+			if dp.Family != "custom" {
+				do.LimitCap = 16
+			}
+			dv := refssz.Random(rt, dt, do, "donor")
+			c.Donor, c.DonorPreset = hex.EncodeToString(refssz.Serialize(dt, dv)), dp.Name
+		}
+	}
+	return c
 }
 
 // mutate applies 1..4 rapid-drawn edits to a valid encoding.
@@ -724,6 +776,12 @@ func TestCheck(t *testing.T) {
 		r.Class("value:" + p.Family + ":" + c.Shape)
 		if info.jsonNamed {
 			r.Class("json-by-name-compared")
+		}
+		if info.recycled {
+			r.Class("recycled-destination-decoded")
+			if c.DonorPreset != c.Preset {
+				r.Class("recycled-destination-decoded:donor-of-another-preset")
+			}
 		}
 		if info.nonDef && (info.fixed || info.nonEmpty > 0) {
 			al := info.atLimit
